@@ -107,8 +107,8 @@ theorem process_closed (dl : Option Int) (it : Iter) : process dl it = processCl
       simp [process, processIn, kopfOrder, runStages, stepStage, outcomeOf, PS.start, processClosed, hr, hg, hi]
   | some d =>
     cases hr : it.required <;> cases hg : it.gone <;> cases hm : it.patchMid <;> cases hi : it.patchInit <;>
-      by_cases hd : d = 0 <;>
-      simp [process, processIn, kopfOrder, runStages, stepStage, outcomeOf, PS.start, processClosed, hr, hg, hm, hi, hd]
+      by_cases hd : d = 0 <;> by_cases hp : d ≤ it.now + (it.dur : Int) <;>
+      simp [process, processIn, kopfOrder, runStages, stepStage, outcomeOf, PS.start, processClosed, hr, hg, hm, hi, hd, hp]
     all_goals
       cases hto : (sleepUntil d (it.now + (it.dur : Int)) it.pressure it.wake it.lag).timedOut <;> simp [hto]
 
@@ -130,9 +130,10 @@ theorem process_handlers_deadline {d : Int} {it : Iter} {t : Int}
   rw [process_closed] at h
   unfold processClosed at h
   cases hr : it.required <;> cases hg : it.gone <;> cases hm : it.patchMid <;> cases hi : it.patchInit <;>
-    by_cases hd : d = 0 <;> simp [hr, hg, hm, hi, hd] at h
-  obtain ⟨h1, h2⟩ := h
-  rw [← h2]; exact sleepUntil_timedOut h1
+    by_cases hd : d = 0 <;> by_cases hp : d ≤ it.now + (it.dur : Int) <;> simp [hr, hg, hm, hi, hd, hp] at h
+  all_goals first
+    | (rw [← h]; exact hp)
+    | (obtain ⟨h1, h2⟩ := h; rw [← h2]; exact sleepUntil_timedOut h1)
 
 theorem process_handlers_ge_now {dl : Option Int} {it : Iter} {t : Int}
     (h : (process dl it).handlers = some t) : it.now ≤ t := by
@@ -144,9 +145,10 @@ theorem process_handlers_ge_now {dl : Option Int} {it : Iter} {t : Int}
     omega
   | some d =>
     cases hr : it.required <;> cases hg : it.gone <;> cases hm : it.patchMid <;> cases hi : it.patchInit <;>
-      by_cases hd : d = 0 <;> simp [hr, hg, hm, hi, hd] at h
-    obtain ⟨_, h2⟩ := h
-    rw [← h2]; exact Int.le_trans (by omega) (sleepUntil_ge_now _ _ _ _ _)
+      by_cases hd : d = 0 <;> by_cases hp : d ≤ it.now + (it.dur : Int) <;> simp [hr, hg, hm, hi, hd, hp] at h
+    all_goals first
+      | omega
+      | (obtain ⟨_, h2⟩ := h; rw [← h2]; exact Int.le_trans (by omega) (sleepUntil_ge_now _ _ _ _ _))
 
 /-- Handlers can only run inside `process_changing_cause`, and never for a GONE cause. -/
 theorem process_entered_of_handlers {dl : Option Int} {it : Iter} {t : Int}
@@ -159,8 +161,8 @@ theorem process_entered_of_handlers {dl : Option Int} {it : Iter} {t : Int}
     exact h
   | some d =>
     cases hr : it.required <;> cases hg : it.gone <;> cases hm : it.patchMid <;> cases hi : it.patchInit <;>
-      by_cases hd : d = 0 <;> simp [hr, hg, hm, hi, hd] at h ⊢
-    exact h
+      by_cases hd : d = 0 <;> by_cases hp : d ≤ it.now + (it.dur : Int) <;> simp [hr, hg, hm, hi, hd, hp] at h ⊢
+    all_goals exact h
 
 /-! ### the stage interpreter -/
 
@@ -218,10 +220,13 @@ theorem stepStage_clock_mono (dl : Option Int) (it : Iter) (ps : PS) (st : Stage
     cases dl with
     | none => exact Int.le_refl _
     | some d =>
-      simp only
-      by_cases hc : (it.required && !(false || it.gone) && it.patchMid && decide (d ≠ 0)) = true
-      · simp only [Option.isNone_some, hc, if_true]; exact sleepUntil_ge_now _ _ _ _ _
-      · simp only [Option.isNone_some, hc]; exact Int.le_refl _
+      simp only [Option.isNone_some]
+      split
+      · rename_i s hs
+        split at hs
+        · cases hs; exact sleepUntil_ge_now _ _ _ _ _
+        · cases hs
+      · exact Int.le_refl _
   · simp only [stepStage]; split <;> exact Int.le_refl _
 
 /-- Structural fact of the model: for ANY stage order in which the barrier comes after a block `lows`,
